@@ -78,8 +78,9 @@ def run(ck):
                       key="destructive|%s|%s|%s" % (strip_tmpl(f.name).split("::")[-1], k, why if not ok else "ok"))
     ck.require(n_sites >= 4, "fewer destructive call sites than confirmed by hand (%d < 4)" % n_sites)
     fi = S.m["findNextIndexForDate"]
-    tp = [t for t in pattern_templates(fi) if t[0].startswith("^")]
-    okgz = len(tp) == 2 and all(t[0].endswith("(\\.gz)?$") for t in tp)
+    from rules.c06 import regex_patterns
+    tp = [t for t in regex_patterns(F, fi) if t[0].startswith("^")]
+    okgz = len(tp) >= 2 and all(t[0].endswith("(\\.gz)?$") for t in tp)
     ck.ob("C10-O3", sitestr(fi), okgz, "the next index is searched over plain and .gz names: a leftover of either form is never reused" if okgz else "the index search ignores one of the two forms", key="findNextIndexForDate|leftover-form")
     # ---- O4
     allopens = [(rt, o) for o in opens] + [(S.fs_ctor, o) for o in S.fs_ctor.calls(("QFile::open", "QIODevice::open", "QFileDevice::open"))]
